@@ -25,13 +25,28 @@ def spec(name, layout, dst1, dst2, queue=True, depth=None, **kw):
     return s
 
 
+def recreate_spec(depth):
+    """Delete, re-create and delete again a hotfix branch that received
+    pull requests in between (monitor only, no third party)."""
+    return {'driver': 'flow', 'name': 'c08-noq-H3-recreate',
+            'config': {'layout': 'H3', 'queue': False, 'skip_queue': False,
+                       'options': BYPASS_REVIEW + ['bypass_build_status']},
+            'init': [['open', PR1, 'hotfix/4.2.17']],
+            'late_open': [['open', PR2, 'hotfix/4.2.17']],
+            'monitors': ['c08'], 'pushes': 0, 'statuses_int': [],
+            'admin': [['delete_branch', 'hotfix/4.2.17'],
+                      ['create_branch', 'hotfix/4.2.17']],
+            'max_depth': depth}
+
+
 def specs(tier):
     reset = [[AUTHOR, '@robot reset']]
     if tier == 'quick':
         return [spec('c08-noq-D2', 'D2', 'development/4.3',
                      'development/4.3', queue=False, depth=4, decline=True),
                 spec('c08-q-D2', 'D2', 'development/4.3', 'development/5.1',
-                     depth=4, admin=[['delete_queues']])]
+                     depth=4, admin=[['delete_queues']]),
+                recreate_spec(6)]
     return [spec('c08-noq-D2', 'D2', 'development/4.3', 'development/4.3',
                  queue=False, depth=6, decline=True, comments=reset),
             spec('c08-q-D2', 'D2', 'development/4.3', 'development/5.1',
@@ -44,7 +59,8 @@ def specs(tier):
                                  ['create_branch', 'development/10.0']]),
             spec('c08-noq-H3', 'H3', 'hotfix/4.2.17', 'development/4.3',
                  queue=False, depth=5,
-                 admin=[['delete_branch', 'hotfix/4.2.17']])]
+                 admin=[['delete_branch', 'hotfix/4.2.17']]),
+            recreate_spec(8)]
 
 
 def run(tier, seed, workers=None):
